@@ -20,6 +20,7 @@ def check(ctx):
   r1(ctx)
   r2_r3(ctx)
   r4(ctx)
+  lease_to_enqueue(ctx)
   from . import c12, c02, c13
   ctx.rule('C02.R4', 'shared with C02: a reply is routed by the tag decoded from its own frame to the entry registered under that tag, which is popped before the reply is delivered')
   c02.r4(ctx)
@@ -316,3 +317,42 @@ def r4(ctx):
              'not be the one that carries the tag (the "answered while queued" marker never reaches the queued entry)' % (reads, prop[0][0]),
              'a recycled tag must not go out on the wire while an earlier request carrying it is still queued')
   ctx.floor('C11.R4', 'enqueue paths', n, 2)
+
+
+def lease_to_enqueue(ctx):
+  """Between leasing a tag and queueing the frame nothing can give up: the methods called on that stretch (the header builder of every transport built on the mux sink)
+  contain no `raise`.  A request refused there is never written and never answered -- no timeout, reply or shutdown path releases its tag."""
+  prog = ctx.prog
+  f = prog.func(MUX, 'MuxSocketTransportSink.AsyncProcessRequest')
+  why = ('a tag leased for a request that is then refused (exception between `_tag_pool.get()` and `_send_queue.put`) stays in the tag map for the life of the connection: '
+         'consumption is no longer bounded by the peak number of concurrent requests')
+  base = prog.cls(MUX, 'MuxSocketTransportSink')
+  fam = [base] + prog.subclasses(base, strict=True)
+  n = 0
+  for ev, ex in enum_paths(ctx, f):
+    lease = [i for i, e in enumerate(ev) if e.kind == 'call' and U(e.node.func).replace(' ', '') == 'self._tag_pool.get']
+    put = [i for i, e in enumerate(ev) if e.kind == 'call' and U(e.node.func).replace(' ', '') == 'self._send_queue.put']
+    if not lease or not put:
+      continue
+    n += 1
+    risky = []
+    for e in ev[lease[0] + 1:put[0]]:
+      if e.kind != 'call' or not (isinstance(e.node.func, ast.Attribute) and U(e.node.func.value) == 'self'):
+        continue
+      nm = e.node.func.attr
+      seen, work = set(), [(k, nm) for k in fam]
+      while work:
+        k, name = work.pop()
+        m = k.methods.get(name)
+        if m is None or id(m) in seen:
+          continue
+        seen.add(id(m))
+        body_ = [st for st in m.node.body if not (isinstance(st, ast.Expr) and isinstance(st.value, ast.Constant))]
+        stub = len(body_) == 1 and isinstance(body_[0], ast.Raise) and 'NotImplementedError' in U(body_[0])      # abstract in the base, overridden by every transport
+        if not stub and any(isinstance(x, ast.Raise) for x in walk_no_nested(m.node)):
+          risky.append('%s.%s' % (k.name, name))
+        for c in walk_no_nested(m.node):
+          if isinstance(c, ast.Call) and isinstance(c.func, ast.Attribute) and U(c.func.value) in ('self', 'cls') and len(seen) < 40:
+            work.extend((k2, c.func.attr) for k2 in fam)
+    ctx.ob('C11.R4', f, 'nothing called between the tag lease and the enqueue can refuse the request', not risky, 'methods that raise on that stretch: %s' % sorted(set(risky)), why)
+  ctx.floor('C11.R4', 'lease-to-enqueue paths', n, 1)
